@@ -41,7 +41,6 @@ import (
 	"unsafe"
 
 	"github.com/coregx/coregex/simd"
-	"golang.org/x/sys/cpu"
 
 	"verif/harness/internal/core"
 )
@@ -417,7 +416,14 @@ type simdWorker struct {
 	cases, calls, nontriv, tlaChecked, naiveOnly, faults, concretisations int64
 	apiCalls                                                              [skN]int64
 	fails                                                                 int64
+	jobFails                                                              [skN]int // failures per primitive in the current job
 }
+
+// A broken primitive fails on almost every haystack (and every fault costs a signal): after this many
+// reported failures of one primitive within one job (one TLA+ record or one exhaustive length) the
+// primitive is not called again in that job.  Jobs are processed sequentially by one worker, so the
+// set of reported failures is a deterministic function of the tree.
+const simdMaxFailsPerJob = 4
 
 func newSimdWorker(rep *core.Report) (*simdWorker, error) {
 	h, err := newSArena()
@@ -462,6 +468,7 @@ func (w *simdWorker) fail(p *sprobe, src []byte, h []byte, pl int, want, got str
 		hs = hs[:256]
 	}
 	w.fails++
+	w.jobFails[p.kind]++
 	w.rep.Fail(&core.Failure{Prop: "C18", Scope: "simd", API: skNames[p.kind], Mode: "", Pattern: p.pattern(), Hay: hex.EncodeToString(hs),
 		Args: fmt.Sprintf("len=%d align=%d placement=%s", len(src), align, plNames[pl]), Want: want, Got: got, Cfg: w.godebug})
 }
@@ -483,16 +490,37 @@ func fmtRes(kind, v int) string {
 // runCase places src in every requested way and runs every probe on it.
 func (w *simdWorker) runCase(src []byte, bait *[3]byte, probes []sprobe, mids []int) {
 	w.concretisations++
+	midReady, prevOff := false, 0
 	for pi := 0; pi < 2+len(mids); pi++ {
 		pl, align := pi, 0
 		if pi >= 2 {
 			pl, align = plMid, mids[pi-2]
 		}
-		h := w.hay.place(src, pl, align, bait)
+		var h []byte
+		if pl == plMid {
+			// the alignments are ascending: bait the whole region once, then only the bytes the slice moved over
+			off := 1024 + align
+			d := w.hay.data
+			if !midReady {
+				for i := 1024 - 128; i < 1024+64+len(src)+128; i++ {
+					d[i] = bait[i%3]
+				}
+				midReady = true
+			} else {
+				for i := prevOff; i < off; i++ {
+					d[i] = bait[i%3]
+				}
+			}
+			prevOff = off
+			copy(d[off:], src)
+			h = d[off : off+len(src) : off+len(src)]
+		} else {
+			h = w.hay.place(src, pl, align, bait)
+		}
 		w.cases++
 		for i := range probes {
 			p := &probes[i]
-			if p.skip || p.reported&(1<<uint(pl)) != 0 {
+			if p.skip || p.reported&(1<<uint(pl)) != 0 || w.jobFails[p.kind] >= simdMaxFailsPerJob {
 				continue
 			}
 			var nd []byte
@@ -559,11 +587,12 @@ func (w *simdWorker) needle(n int) []byte {
 
 type simdTables struct {
 	in, notIn, fillerOnly [256]bool
-	dIn, dNotIn, dNotF   string
+	dIn, dNotIn, dNotF    string
 }
 
 // doRecord replays one TLA+ record under every palette, width, lane offset and length jitter.
 func (w *simdWorker) doRecord(hdr *simdHdr, tabs []simdTables, rec *simdRec, widths []int) {
+	w.jobFails = [skN]int{}
 	if len(rec.P) != len(hdr.Pals) || len(rec.H) != rec.N {
 		w.rep.Machinery(fmt.Sprintf("record %d: malformed (TLC theorem failed?)", rec.I))
 		return
@@ -586,11 +615,15 @@ func (w *simdWorker) doRecord(hdr *simdHdr, tabs []simdTables, rec *simdRec, wid
 					continue
 				}
 			}
-			// alignments: a*s-1, a*s, a*s+1 (mod 64) for every abstract alignment a
+			// alignments: a*s (mod 64) for every abstract alignment a, and 63 / 1 around a = 0
+			// (the exhaustive part sweeps all 64 alignments)
 			var seen [64]bool
 			mids = mids[:0]
 			for _, a := range rec.Al {
 				for da := -1; da <= 1; da++ {
+					if a != 0 && da != 0 {
+						continue
+					}
 					x := ((a*s+da)%64 + 64) % 64
 					if !seen[x] {
 						seen[x] = true
@@ -654,9 +687,8 @@ func (w *simdWorker) concretise(hdr *simdHdr, tb *simdTables, rec *simdRec, pr *
 		for d := 0; d <= hdr.D; d++ {
 			ps = append(ps, sprobe{kind: skPair, b: b, off: d * s, tla: cm(pr.Pair[k][d]), hasTLA: true})
 		}
-		// the definition gives -1 for a negative offset; in a stretched haystack two non-filler bytes
-		// are never s-1 or s+1 apart
-		ps = append(ps, sprobe{kind: skPair, b: b, off: -1, tla: -1, hasTLA: true})
+		// in a stretched haystack two non-filler bytes are never s-1 or s+1 apart
+		// (negative offsets are outside the documented domain of MemchrPair and are not called)
 		if !exact {
 			ps = append(ps, sprobe{kind: skPair, b: b, off: s - 1, tla: -1, hasTLA: true},
 				sprobe{kind: skPair, b: b, off: s + 1, tla: -1, hasTLA: true})
@@ -710,7 +742,9 @@ func (w *simdWorker) concretise(hdr *simdHdr, tb *simdTables, rec *simdRec, pr *
 			ps = append(ps, sprobe{kind: skDigitAt, off: at, tla: e, hasTLA: exact || !simdIsDigit(f)})
 		}
 	}
-	w.finishProbes(src, ps, func() string { return fmt.Sprintf("W=%d record %d stretched x%d lane %d len%+d", hdr.W, rec.I, s, o, dl) })
+	w.finishProbes(src, ps, func() string {
+		return fmt.Sprintf("W=%d record %d stretched x%d lane %d len%+d", hdr.W, rec.I, s, o, dl)
+	})
 	w.runCase(src, bait, ps, mids)
 	w.probes = ps[:0]
 }
@@ -747,6 +781,7 @@ var (
 
 // exhaustiveN runs every single-hit scenario of length n.
 func (w *simdWorker) exhaustiveN(n int) {
+	w.jobFails = [skN]int{}
 	src := make([]byte, n)
 	fill := func(cyc []byte) {
 		for i := range src {
@@ -769,9 +804,8 @@ func (w *simdWorker) exhaustiveN(n int) {
 				{kind: skMemchr2, b: [3]byte{'x', 'Q'}}, {kind: skMemchr2, b: [3]byte{'Q', 'x'}}, {kind: skMemchr2, b: [3]byte{'x', 'x'}},
 				{kind: skMemchr3, b: [3]byte{'x', 'Q', 'R'}}, {kind: skMemchr3, b: [3]byte{'Q', 'x', 'R'}}, {kind: skMemchr3, b: [3]byte{'Q', 'R', 'x'}},
 				{kind: skInTable, tbl: simdXTab, tdesc: "{78}"}, {kind: skNotInTable, tbl: simdNotXTab, tdesc: "all but {78}"},
-				{kind: skInTable, tbl: nil, tdesc: "nil"}, {kind: skNotInTable, tbl: nil, tdesc: "nil"},
 				{kind: skMemmem, nd: []byte{'x'}}, {kind: skMemmem, nd: []byte{}},
-				{kind: skPair, b: [3]byte{'x', 'x'}, off: 0}, {kind: skPair, b: [3]byte{'x', 'Q'}, off: 0}, {kind: skPair, b: [3]byte{'x', 'x'}, off: -1},
+				{kind: skPair, b: [3]byte{'x', 'x'}, off: 0}, {kind: skPair, b: [3]byte{'x', 'Q'}, off: 0},
 			})
 		}
 		// needle 0x00 in 0x01 filler and needle 0x80 in 0x00 filler (SWAR zero-byte detection corner cases)
@@ -786,20 +820,21 @@ func (w *simdWorker) exhaustiveN(n int) {
 		}
 		// --- byte pair: b1 at pos, b2 at pos+d; three fillers (plain, b1 everywhere, b2 everywhere)
 		for _, d := range simdPairOffs {
-			for v := 0; v < 3; v++ {
-				fl := byte('a')
-				if v == 1 {
-					fl = 'x'
-				} else if v == 2 {
-					fl = 'Q'
-				}
+			for v := 0; v < 4; v++ {
+				fl := []byte{'a', 'x', 'Q', 'y'}[v]
 				fill([]byte{fl})
 				if pos >= 0 {
-					// v=1: b1 everywhere, the only b2 at pos+d; v=2: b2 everywhere, the only b1 at pos
+					// v=0: plain; v=1: b1 everywhere, the only b2 at pos+d; v=2: b2 everywhere, the only b1 at pos;
+					// v=3: filler b1^1, b1 at pos, b2 one place too far (no pair at all; a SWAR zero-byte
+					//      detector sees a false b1 right after a true one)
 					if v != 1 {
 						src[pos] = 'x'
 					}
-					if v != 2 && pos+d < n {
+					if v == 3 {
+						if pos+d+1 < n {
+							src[pos+d+1] = 'Q'
+						}
+					} else if v != 2 && pos+d < n {
 						src[pos+d] = 'Q'
 					}
 				}
@@ -916,6 +951,42 @@ func (w *simdWorker) selfTest() error {
 	return nil
 }
 
+// detectDispatch finds out, through the public API only, whether the vector or the scalar code is
+// dispatched under the current CPU feature mask: a 32-byte slice of which only the first 16 bytes are
+// accessible has its hit in byte 0.  Scalar/SWAR code (8-byte words at most) returns 0; a 32-byte
+// vector load faults.
+func (w *simdWorker) detectDispatch() map[string]string {
+	out := map[string]string{}
+	for _, p := range []sprobe{{kind: skMemchr, b: [3]byte{'x'}}, {kind: skMemchr2, b: [3]byte{'x', 'Q'}}, {kind: skMemchr3, b: [3]byte{'x', 'Q', 'R'}},
+		{kind: skPair, b: [3]byte{'x', 'Q'}, off: 1}, {kind: skDigit}, {kind: skWord}, {kind: skNotWord}, {kind: skIsASCII}} {
+		src := []byte("xQ              ")
+		switch p.kind {
+		case skDigit, skWord:
+			src[0] = '7'
+		case skNotWord:
+			src = []byte("%aaaaaaaaaaaaaaa")
+		case skIsASCII:
+			src[0] = 0x80
+		}
+		h := w.hay.place(src, plEnd, 0, nil)
+		n := 32
+		if p.kind == skPair {
+			n = 33 // the vector path needs len >= 32+offset
+		}
+		lying := unsafe.Slice(unsafe.SliceData(h), n)
+		res, fault := w.guard(&p, lying, nil)
+		switch {
+		case strings.HasPrefix(fault, "memory fault"):
+			out[skNames[p.kind]] = "vector (32-byte loads)"
+		case fault == "" && res == 0:
+			out[skNames[p.kind]] = "scalar/SWAR (no load wider than 8 bytes)"
+		default:
+			out[skNames[p.kind]] = fmt.Sprintf("undetermined (result %d, %s)", res, fault)
+		}
+	}
+	return out
+}
+
 // ---------------------------------------------------------------- driver
 
 func runSimd(args []string) {
@@ -942,10 +1013,31 @@ func runSimd(args []string) {
 		fatal(err)
 	}
 	rep.Extra["godebug"] = os.Getenv("GODEBUG")
-	rep.Extra["cpu_features_detected"] = map[string]bool{"avx2": cpu.X86.HasAVX2, "ssse3": cpu.X86.HasSSSE3, "sse41": cpu.X86.HasSSE41, "sse42": cpu.X86.HasSSE42}
-	fmt.Fprintf(os.Stderr, "vh simd: GODEBUG=%q detected features: avx2=%v ssse3=%v sse4.1=%v sse4.2=%v (simd dispatches on avx2 only)\n",
-		os.Getenv("GODEBUG"), cpu.X86.HasAVX2, cpu.X86.HasSSSE3, cpu.X86.HasSSE41, cpu.X86.HasSSE42)
 
+	{
+		done := make(chan struct{})
+		go func() { // SetPanicOnFault is per goroutine
+			defer close(done)
+			debug.SetPanicOnFault(true)
+			w, err := newSimdWorker(rep)
+			if err != nil {
+				fatal(err)
+			}
+			d := w.detectDispatch()
+			rep.Extra["dispatch_observed"] = d
+			keys := make([]string, 0, len(d))
+			for k := range d {
+				keys = append(keys, k)
+			}
+			sort.Strings(keys)
+			var sb strings.Builder
+			for _, k := range keys {
+				fmt.Fprintf(&sb, " %s=%s;", k, d[k])
+			}
+			fmt.Fprintf(os.Stderr, "vh simd: GODEBUG=%q dispatch observed through the public API:%s\n", os.Getenv("GODEBUG"), sb.String())
+		}()
+		<-done
+	}
 	type job struct {
 		hdr  *simdHdr
 		tabs []simdTables
@@ -999,6 +1091,9 @@ func runSimd(args []string) {
 		}()
 	}
 
+	for n := *exh; n >= 0; n-- { // the long ones first
+		jobs <- job{exhN: n}
+	}
 	nrec := 0
 	recsByW := map[string]int{}
 	var hdrs []any
@@ -1059,9 +1154,6 @@ func runSimd(args []string) {
 				rep.Machinery("no header record in " + path)
 			}
 		}
-	}
-	for n := 0; n <= *exh; n++ {
-		jobs <- job{exhN: n}
 	}
 	close(jobs)
 	wg.Wait()
